@@ -8,43 +8,43 @@ import json, os, subprocess, sys
 V = os.path.dirname(os.path.dirname(os.path.abspath(__file__)))
 
 TEXT = {
- "C01": ("per-call channels/no shared per-call state, send-success implies exactly one hand-over, recv-success implies exactly one fill, sends/receives serialised under the per-direction lock in blocking selects, reader/writer framing agreement",
+ "C01": ("per-call channels/no shared per-call state, send-success implies exactly one hand-over, recv-success implies exactly one fill, sends/receives serialised under the per-direction lock in blocking selects, reader/writer framing agreement, a call's HTTP request is put on the wire at most once",
          "message content equality, loss/duplication needing schedule exploration, parity with the standard transport"),
- "C02": ("success needs an observed clean end (ctx re-check after receive; io.EOF never published as terminal error without normalisation), handler error always put on the wire, all three status components transferred, inventory of discarded errors, handler context errors translated",
+ "C02": ("success needs an observed clean end (ctx re-check after receive; io.EOF never published as terminal error without normalisation), handler error always put on the wire, all three status components transferred, inventory of discarded errors, handler context errors translated, the library never cancels a call still in use (cancelling finalizer kept reachable), no library timer under in-process frame writes, the status message is made safe for its wire slot (HTTP header value / proto3 string)",
          "survival of arbitrary message text through header sanitising, parity with the reference"),
- "C03": ("header typestate on every server stream type, frame kinds leave in protocol order, every call option honoured (append / range-all), -bin codec agreement between wire converters, request metadata forwarded after credentials were merged, reserved-header table",
+ "C03": ("header typestate on every server stream type, frame kinds leave in protocol order, every call option honoured (append / range-all), -bin codec agreement between wire converters, request metadata forwarded after credentials were merged, reserved-header table, metadata setters refuse only for the stream's state, unary reply fan-out at most once, no per-call metadata state in long-lived or pooled objects",
          "byte-exactness through net/http, cross-key ordering, observability timing"),
- "C04": ("every blocking channel operation has a ctx.Done arm, context errors reach the client only through a translator, handler context descends from the caller's, handler context errors translated, re-check after receive",
+ "C04": ("every blocking channel operation has a ctx.Done arm, context errors reach the client only through a translator, handler context descends from the caller's, handler context errors translated, re-check after receive, a server stream's Context() returns the derived context, the unary reply body is read off the caller's goroutine, a cancelling finalizer sits on an object the blocked operation keeps reachable",
          "'promptly' (timing), outcome distribution of genuine races"),
- "C05": ("guarded-by discipline, close-at-most-once arguments, no send after close, lock order/release, panic inventory with invariants, goroutine and CancelFunc inventory",
+ "C05": ("guarded-by discipline, close-at-most-once arguments, no send after close, lock order/release, panic inventory with invariants, goroutine and CancelFunc inventory, a client stream that fails the call on its own cancels it",
          "global deadlock freedom over all interleavings, bounded time"),
- "C06": ("caller-owned messages stay on the caller's goroutine, only clones cross, receive overwrites, default cloner installed before capture",
+ "C06": ("caller-owned messages stay on the caller's goroutine, only clones cross, receive overwrites, default cloner installed before capture, the configured cloner reaches the channel (setter plumbing), no pooled or package-level holder of messages",
          "deepness of user cloners, object-graph disjointness as a value fact"),
  "C07": ("allocation bounded by a verified length, truncation is an error, no fabricated message, no panic on any bytes",
          "total memory, 'exactly the encoded messages' as a value fact"),
- "C08": ("single-response probe with three-way discrimination, unary in-process response counting, server-side second-request probe",
+ "C08": ("single-response probe with three-way discrimination, unary in-process response counting, server-side second-request probe, the nil-response predicate recognises the typed nil pointer, every successful send handed over exactly one frame, each handler kind keeps to its own framing",
          "code parity with the reference"),
- "C09": ("timeout header emitted iff deadline, unit table agreement with the wire spec, floor + clamp, no wrap-around, parser cannot crash",
+ "C09": ("timeout header emitted iff deadline, unit table agreement with the wire spec, floor + clamp, no wrap-around, parser cannot crash, timeout computed anew for every request issue, deadline applied before the request body is awaited and carried by the context handed to the handler",
          "run-time numeric bounds (clock, transit), negative timeouts"),
- "C10": ("value-blocking wrapper blocks all keys, handler context passes through it with only sanctioned values re-attached, metadata copied, peer and back-door",
+ "C10": ("value-blocking wrapper blocks all keys, handler context passes through it with only sanctioned values re-attached, metadata copied, peer and back-door, the transport stream's Method() reports the stored name",
          "library semantics of context/metadata (trusted)"),
- "C11": ("method/content-type/header gate dominates dispatch, handler at most once, codec tables, exactly one trailer frame, InvalidArgument wrap",
+ "C11": ("method/content-type/header gate dominates dispatch, handler at most once, codec tables, exactly one trailer frame, InvalidArgument wrap, the trailer is not held back behind a read of the request, only exact path patterns are registered",
          "mux 404, JSON≡protobuf decoding, what net/http serialises"),
- "C12": ("malformed names cannot panic, lookup dominates dispatch, finders return the matched element, client/server path agreement, per-entry closures",
+ "C12": ("malformed names cannot panic, lookup dominates dispatch, finders return the matched element, client/server path agreement, per-entry closures, the configured base path and options reach the server (option plumbing), ServeHTTP hands every request untouched to the mux",
          "ServeMux matching / URL escaping for exotic base paths"),
  "C13": ("security decision dominates any I/O, credential metadata merge keeps the caller's, peer from the reply's connection",
          "Response.TLS contents, credential implementations"),
- "C14": ("forward table = documented table, fallback table over all ints, exact code in header wins, 499 rule, renderer only for errors (tables decided exhaustively)",
+ "C14": ("forward table = documented table, fallback table over all ints, exact code in header wins, 499 rule, renderer only for errors (tables decided exhaustively), a custom error renderer reaches the handler (option plumbing), no library-made verdict before the reply's status header is read, status conversions keep all components",
          "custom renderers beyond 'header already set'"),
- "C15": ("refusal before mutation, unfiltered lookup/iteration, service-info field mapping, transports delegate",
+ "C15": ("refusal before mutation, unfiltered lookup/iteration, service-info field mapping, transports delegate, the transports keep no copy of earlier lookups",
          "reflection results for exotic handler types"),
- "C16": ("input description not written, interceptor chain order, truthful stream info, identity when nil, transports hand over their interceptor, per-entry closures",
+ "C16": ("input description not written, interceptor chain order, truthful stream info, identity when nil, transports hand over their interceptor, per-entry closures, configured transport interceptors reach the dispatch (setter / option plumbing), each in-process entry point looks up its own kind of method",
          "behaviour of user interceptors"),
- "C17": ("sibling agreement on the connection argument, exactly-once transparent dispatch, construction/unwrap",
+ "C17": ("sibling agreement on the connection argument, exactly-once transparent dispatch, construction/unwrap, the deprecated constructor alias forwards positionally",
          "behaviour of user interceptors"),
  "C18": ("Reset-before-merge, refusals are errors, adapters bottom out in a deep-copy primitive applied to the source, source only read",
          "equality/deepness of copies (codec/proto library semantics), generated↔dynamic interop"),
- "C19": ("generator stream-index discipline, templates well-formed against the data struct, checked-in stubs agree with checked-in descriptors, option table",
+ "C19": ("generator stream-index discipline, templates well-formed against the data struct, checked-in stubs agree with checked-in descriptors, option table, the output file is created under the package identity the naming service reports",
          "validity of output for all descriptors, byte-identical regeneration (needs the generator to run)"),
  "C20": ("frame channel capacity <= 1 and no other queue, sends cannot complete without a slot, header frame shares the slot",
          "run-time count of completed sends, message memory"),
